@@ -112,6 +112,7 @@ type oblig struct {
 	trivial  bool
 	baseline bool
 	alsoUnsat []string // other solvers that also answered unsat (thorough tier cross-check)
+	thoroughOnly bool // cover probes generated everywhere but discharged only in the thorough tier
 	prebaked bool // verdict decided by the generator (structural / unmapped): not sent to a solver
 }
 
@@ -127,6 +128,7 @@ type rangeInfo struct {
 }
 
 type fnCtx struct {
+	nret     int
 	e        *engine
 	fn       *ssa.Function
 	blk      *block
